@@ -2409,6 +2409,7 @@ func (fc *fnCtx) loopCore(body *ast.BlockStmt, extra []ast.Node, ivar string, he
 			return "", fmt.Errorf("loop body assigns free identifier %s", n)
 		}
 	}
+	state = fc.k03wOrderState(state) // wp k03w: state tuple ordered by type, then declaration (reordering declarations keeps it)
 	for _, n := range state {
 		if fc.isParam(n) && isListLT(fc.m.ltype[n]) && !fc.isOutVar(n) {
 			return "", fmt.Errorf("loop body writes elements of parameter %s", n)
